@@ -32,6 +32,12 @@ func debugLeak() {
 		fmt.Fprintf(os.Stderr, "config %d: started=%v inotify=%d\n", i, ok, countInotify())
 		if ok {
 			core.VerifC13Quiesce(p)
+			if i == 0 {
+				snap, _ := core.VerifC13Snapshot(p)
+				for _, c := range snap {
+					fmt.Fprintf(os.Stderr, "component %s: not observed: %v\n", c.Name, c.Skipped)
+				}
+			}
 			p.Close()
 		}
 		fmt.Fprintf(os.Stderr, "config %d: after close inotify=%d\n", i, countInotify())
